@@ -329,6 +329,45 @@ fn histories() -> Acc {
     acc
 }
 
+/// An operator word glued to the word after it (`-o-print`, `-a(`, `-and!`) is no operator: every
+/// sentence of <= 4 words with one such junction must be refused.
+fn glued_operators() -> Acc {
+    let mut total = Acc::new();
+    for len in 2..=4usize {
+        let n = (WORDS11.len() as u64).pow(len as u32);
+        total = total.merge(par_cases(n, |i, acc| {
+            let mut buf = Vec::with_capacity(len);
+            seq_at(&WORDS11, len, i, &mut buf);
+            let toks: Vec<Tok> = buf.iter().map(|w| tok(w)).collect();
+            if grammar::parse(&toks).is_none() {
+                return;
+            }
+            for k in 0..len - 1 {
+                if !matches!(buf[k], "-a" | "-and" | "-o" | "-or") || buf[k + 1] == ")" {
+                    continue;
+                }
+                let mut words: Vec<String> = buf.iter().map(|w| w.to_string()).collect();
+                let glued = format!("{}{}", words[k], words[k + 1]);
+                words.splice(k..=k + 1, [glued]);
+                let input = words.join(" ");
+                acc.states += 1;
+                acc.transitions += 1;
+                acc.validated += 1;
+                match parse_spec(&input) {
+                    PS::Err(_) => acc.count("glued_operator_refused", 1),
+                    PS::Ok(_, t) => acc.violate(Violation::new(
+                        "C01:accepts-non-sentence:operator-glued-to-next-word",
+                        format!("parse({input:?}) = {}: the word made of an operator and the following word is no operator", t.show()),
+                        json!({"kind": "option-words", "input": input}),
+                    )),
+                    PS::Panic(p) => acc.violate(Violation::new(format!("C01:panic:{}", panic_site(&p)), format!("parse({input:?}) panicked: {p}"), json!({"kind": "option-words", "input": input}))),
+                }
+            }
+        }));
+    }
+    total
+}
+
 fn long_sentences() -> Acc {
     let ns: Vec<usize> = (2..=340).chain([400, 511, 512, 513, 600]).collect();
     let joins: [Option<&str>; 6] = [None, Some("-a"), Some("-and"), Some("-o"), Some("-or"), Some(",")];
@@ -451,6 +490,7 @@ pub fn run(ctx: &Ctx) -> i32 {
     }
     acc = acc.merge(long_sentences());
     acc = acc.merge(histories());
+    acc = acc.merge(glued_operators());
     acc = acc.merge(option_sequences(ctx.tier.pick(5, 6)));
     acc = acc.merge(vocabulary_sequences(ctx.tier.pick(4, 5)));
     let mut bound = format!("all word sequences of length 1..{n11} over {} words; all sequences up to length {} containing the option word -depth, and all sequences up to length {} over (, ), !, ',', -a, -o, -true and one of ~70 special primaries (every vocabulary keyword with an argument, and primaries whose argument word is an operator or keyword spelling) (text-level reference); chains of 2..20 and of 31..600 primaries (every size in the range) under each operator spelling and juxtaposition, within 4 KiB; 1..64-fold negation and parentheses", WORDS11.len(), ctx.tier.pick(5, 6), ctx.tier.pick(4, 5));
